@@ -439,6 +439,12 @@ def rule_branch_tables(ctx):
                     arms = {k: set(v[0]) for k, v in parms.items()}
                 elif parms:
                     arms = {k: set().union(*v) for k, v in parms.items()}
+                if arms != want:
+                    # the weight tested by other predicates than equalities (`is_infinite()` then `> 0.0`): every path's
+                    # tests on the weight are evaluated on representatives of the four documented classes
+                    arms2 = _fallback_by_samples(f, it.paths, is_np)
+                    if arms2 is not None:
+                        arms = arms2
         ctx.verdict(arms == want, rule, rule + ':fallback', 'without positive regret: weight +inf plays the arg-max, 0 plays uniformly, -inf plays the arg-min, anything else a softmax', f.where(0),
                     'arms: %s' % {k: sorted(v) for k, v in arms.items()}, breaks='the documented fallback strategy is not the one played')
         # main branch: proportional to positive regret
@@ -789,6 +795,67 @@ def rule_external(ctx):
         ok = [s for _, s in cs] == ['update_cum_strat', 'next'] and h.dominates(cs[0][0], cs[1][0])
         ctx.verdict(ok, rule, rule + ':update-then-draw', 'every visit of a sampled-player node updates the average strategy exactly once and then draws', h.where(0), 'calls: %s' % [s for _, s in cs],
                     breaks='the average strategy misses visits or counts them twice')
+
+
+def _fallback_by_samples(f, paths, is_np):
+    """{class: effects} of regret_match's no-positive-regret paths, the tests on the weight evaluated concretely on
+    representatives (+inf, 0, -inf, and four finite non-zero weights for 'anything else'); None when a path tests
+    the weight in a way that is not evaluated here"""
+    import absint
+    import operator
+    OPS = {'Eq': operator.eq, 'Ne': operator.ne, 'Gt': operator.gt, 'Lt': operator.lt, 'Ge': operator.ge, 'Le': operator.le}
+    import math
+    UN = {'IsInfinite': math.isinf, 'IsFinite': math.isfinite, 'IsNan': math.isnan}
+    rows = []
+    for pth in paths:
+        cs = absint.path_conds(f, pth)
+        pos = [c for c in cs if c['kind'] == 'Gt' and c.get('b') is not None and is_const(c['b'], 0) and q.is_call(strip_refs(c['a']), 'sum')]
+        if not pos or pos[-1]['truth'] is not False:
+            continue
+        tests = []
+        for c in cs:
+            a, b = c.get('a'), c.get('b')
+            a_np = a is not None and is_np(strip_refs(a))
+            b_np = b is not None and is_np(strip_refs(b))
+            mentions = any(is_np(x) for y in (a, b) if y is not None for x in facts.walk(y))
+            if not mentions:
+                continue
+            if c['kind'] in OPS and a_np and b is not None and b[0] == 'const' and c['truth'] in (True, False):
+                k = float(b[1])
+                tests.append((lambda v, op=OPS[c['kind']], k=k: op(v, k), c['truth']))
+            elif c['kind'] in OPS and b_np and a is not None and a[0] == 'const' and c['truth'] in (True, False):
+                k = float(a[1])
+                tests.append((lambda v, op=OPS[c['kind']], k=k: op(k, v), c['truth']))
+            elif c['kind'] in UN and a_np and c['truth'] in (True, False):
+                tests.append((UN[c['kind']], c['truth']))
+            else:
+                return None
+        fx = set()
+        for bi in pth.trace:
+            t = f.blocks[bi]['term']
+            if t['t'] == 'call':
+                sp = short(t['callee'].get('path') or t['callee'].get('def') or '')
+                if sp in ('max_by', 'min_by', 'exp'):
+                    fx.add(sp)
+                elif sp == 'fill':
+                    v = strip_refs(f.call_expr(t, bi)[2][1])
+                    fx.add('fill:' + ('0' if is_const(v, 0) else 'uniform' if v[0] == 'bin' and v[1] == 'Div' and is_const(v[2], 1) else '?'))
+            for st in f.blocks[bi]['stmts']:
+                if st['s'] == 'assign' and st['pl']['p'] and st['pl']['p'][-1]['k'] == 'index' and is_const(f.rvalue_expr(st['rv'], bi), 1):
+                    fx.add('one-hot')
+        rows.append((tests, frozenset(fx)))
+    if not rows:
+        return None
+    out = {}
+    for cls, reps in ((INF, [INF]), (0.0, [0.0]), (-INF, [-INF]), ('else', [2.0, -2.0, 0.5, -0.5])):
+        eff = set()
+        for v in reps:
+            feas = [fx for tests, fx in rows if all(bool(t(v)) == truth for t, truth in tests)]
+            if not feas:
+                return None
+            eff |= set().union(*feas) if len(set(feas)) > 1 else set(feas[0])
+        out[cls] = eff
+    return out
 
 
 def run(ctx):
